@@ -202,8 +202,8 @@ def snapshot(obj):
     snap = {'class': type(obj).__name__, 'span': repr(list(d['span'])), 'span_type': type(d['span']).__name__,
             'index': list(d['index']), 'attributes': list(d['_attributes']), 'strict': d['_strict'], 'vars': {}}
     for name in d['index']:
-        a = d['_' + name]
-        snap['vars'][name] = (str(a.dtype), a.shape, array_canon(a))
+        a = d.get('_' + name)
+        snap['vars'][name] = None if a is None else (str(a.dtype), a.shape, array_canon(a))
     extra = {}
     for k, v in d.items():
         if k in ('span', 'index', '_attributes', '_strict') or (k.startswith('_') and k[1:] in d['index']):
